@@ -199,7 +199,7 @@ CHECKS.update({
 })
 NOT_YET = {}
 
-HOOK_COMMITS = ["71990aa", "ef4a40c", "f28e495"]
+HOOK_COMMITS = ["71990aa", "ef4a40c", "f28e495", "519411b"]
 
 
 # ---- additions of rounds 5-7 (applied to the evaluated texts)
